@@ -5,7 +5,7 @@ the representation invariant, execute the real MIR of one operation with symboli
 check the post-conditions, each tagged with the property it belongs to.  One step covers histories of any length whose
 states have <= N entries.  The oracle is the properties' statement over (pre-state, arguments, result, post-state)."""
 import time, json, z3
-from .engine import (Interp, Ctx, Str, Agg, Ref, Cell, explore, Unsupported, Panic, Deadlock, is_conc, is_z3, simp, b_and, b_or, b_not, deref_all, to_real)
+from .engine import (Interp, Ctx, Str, Agg, Ref, Cell, explore, Unsupported, Panic, Deadlock, is_conc, is_z3, simp, b_and, b_or, b_not, deref_all, to_real, powf_term)
 from .models import Harness, Cfg, POLICIES, NS, HITS_MAX
 
 RECENCY = ('LRU', 'ARC', 'TLRU')
@@ -58,8 +58,7 @@ def score_terms(cfg, ordered, now_ns=None, tnow=None, interp=None, ctx=None):
         else:
             hreal = to_real(c['hits'])
             if cfg.fw is not None:
-                PW = z3.Function('powf', z3.RealSort(), z3.RealSort(), z3.RealSort())
-                comp = z3.If(hreal > 0, PW(hreal, z3.RealVal(str(cfg.fw))), 0)
+                comp = z3.If(hreal > 0, powf_term(ctx, hreal, z3.RealVal(str(cfg.fw))), 0)
             else: comp = hreal
             sc = comp * rank * (c['frac'] if c.get('frac') is not None else 1)
         out.append(sc)
@@ -90,6 +89,51 @@ def model_witness(ctx, model, h, extra):
     return w
 
 
+def nice_model(ctx, f, h, model):
+    """a replay-friendly model of pc & not f: integral hits/clock (when the VC was decided over the reals), moderate ages,
+    ages away from whole-second boundaries.  Returns None if integrality makes the violation disappear."""
+    s = ctx.solver
+    neg = z3.Not(f)
+    def attempt(extra):
+        s.push()
+        try:
+            s.add(neg)
+            for c in extra: s.add(c)
+            r = s.check()
+            return s.model() if r == z3.sat else (None if r == z3.unsat else 'unknown')
+        finally:
+            s.pop()
+    hard = []
+    if h.cfg.real:
+        for e in h.pre: hard += [z3.IsInt(e.hits), z3.IsInt(e.birth)]
+        hard += [z3.IsInt(h.now0)] + [z3.IsInt(t) for t in (ctx.sys_vars if h.cfg.flavour == 'A' else ctx.now_vars) if z3.is_real(t)]
+        if h.cfg.ttl is not None: hard.append(z3.IsInt(h.cfg.ttl))
+    soft = []
+    A = h.cfg.flavour == 'A'
+    horizon = 3000 if A else 3000 * NS
+    soft.append(h.now0 <= (10 ** 9 if A else 10 ** 15))
+    for e in h.pre:
+        soft.append(h.now0 - e.birth <= horizon)
+        soft.append(e.hits <= 50)
+    if h.cfg.ttl is not None: soft.append(h.cfg.ttl <= 1000)
+    soft2 = []
+    if not A and not h.cfg.real:
+        for i, e in enumerate(h.pre):
+            q = z3.Int('nice_q%d' % i); r = z3.Int('nice_r%d' % i)
+            soft2 += [h.now0 - e.birth == q * NS + r, r >= 300000000, r <= 700000000]
+    for extra in (hard + soft + soft2, hard + soft, hard):
+        m = attempt(extra)
+        if m is not None and m != 'unknown': return m
+        if extra is hard or (not soft and not soft2):
+            break
+    if hard:
+        m = attempt(hard)
+        if m is None: return None
+        if m == 'unknown': return model
+        return m
+    return model
+
+
 def run_step(P, cfg, n, op, props=None, seed=0, timeout_ms=20000, nmax=None, deadline=None):
     """execute STEP(cfg, n, op) and check all claims whose property is in `props` (None = all)"""
     I = Interp(P)
@@ -98,10 +142,12 @@ def run_step(P, cfg, n, op, props=None, seed=0, timeout_ms=20000, nmax=None, dea
     # over-approximation of the integer state space; a real-valued witness is re-solved with integrality before replay)
     cfg.real = (cfg.policy == 'TLRU' and cfg.has_ttl and op != 'get')
 
+    cur = {}
     def run(ctx):
         I.reset()
         h = Harness(P, I, ctx, cfg, n, nmax=nmax)
         k = z3.Int('argkey'); v = z3.Int('argval')
+        cur['h'] = h; cur['k'] = k; cur['v'] = v; cur['ctx'] = ctx
         ctx.add(z3.And(k >= 0, v >= 0))
         sz = h.SIZE(v); ctx.add(z3.And(sz >= 0, sz <= 2 ** 40))
         kstr = Ref(Cell(Str(k), 'key'))
@@ -113,18 +159,24 @@ def run_step(P, cfg, n, op, props=None, seed=0, timeout_ms=20000, nmax=None, dea
         else: raise Unsupported('op ' + op)
         return h, k, v, r, pre_clock
 
-    outs, st = explore(run, seed=seed, timeout_ms=timeout_ms, deadline=deadline)
+    snap = []
+    def run2(ctx):
+        try: return run(ctx)
+        finally: snap.append(dict(cur))
+    outs, st = explore(run2, seed=seed, timeout_ms=timeout_ms, deadline=deadline)
     res.stats = st
+    bypath = {id(c['ctx']): c for c in snap if 'ctx' in c}
     for o in outs:
         ctx = o.ctx; res.paths += 1; res.funcs |= ctx.funcs_used; res.builtins |= ctx.builtins_used
-        if o.status == 'panic':
-            res.classes.add('panic')
-            m = ctx.solver.model() if ctx.check() else None
-            res.panics.append(dict(prop='C16', clause='no panic', msg=o.res.msg, kind=o.res.kind, cfg=cfg.tag(), n=n, op=op, ctx=ctx, model=m))
-            continue
-        if o.status == 'deadlock':
-            res.classes.add('deadlock')
-            res.deadlocks.append(dict(prop='C17', clause='no self-deadlock', msg=str(o.res), cfg=cfg.tag(), n=n, op=op, ctx=ctx))
+        if o.status in ('panic', 'deadlock'):
+            res.classes.add(o.status)
+            c = bypath.get(id(ctx)); w = None
+            if c is not None and ctx.check():
+                hh = c['h']; m = nice_model(ctx, z3.BoolVal(False), hh, ctx.solver.model())
+                w = model_witness(ctx, m, hh, dict(argkey=c['k'], argval=c['v'], argsize=hh.SIZE(c['v']), op=op, result=None))
+            rec = dict(prop='C16' if o.status == 'panic' else 'C17', clause='no panic' if o.status == 'panic' else 'no self-deadlock',
+                       msg=(o.res.msg if o.status == 'panic' else str(o.res)), cfg=cfg.tag(), n=n, op=op, witness=w)
+            (res.panics if o.status == 'panic' else res.deadlocks).append(rec)
             continue
         h, k, v, r, pre_clock = o.res
         claims = []
@@ -139,6 +191,10 @@ def run_step(P, cfg, n, op, props=None, seed=0, timeout_ms=20000, nmax=None, dea
             if case_cond is not True: f = z3.Implies(case_cond, f) if f is not False else z3.Not(case_cond)
             okk, model = ctx.prove(f)
             if not okk:
+                model = nice_model(ctx, f, h, model)
+                if model is None:
+                    res.spurious_real = getattr(res, 'spurious_real', 0) + 1
+                    continue
                 res.failed.append(dict(prop=cl.prop, clause=cl.clause, cfg=cfg.tag(), n=n, op=op,
                                        witness=model_witness(ctx, model, h, dict(argkey=k, argval=v, argsize=h.SIZE(v), op=op, result=('Some' if getattr(r, 'variant', 0) == 1 else 'None') if op == 'get' else None))))
     res.wall = time.time() - t0
@@ -275,7 +331,9 @@ def oracle_insert(ctx, h, k, v, claims, pre_clock, with_memory=False):
         if with_memory and cfg.has_mem:
             classes.append('insert_mem/' + ('overwrite' if case is not None else 'new') + '/removed%d' % len(removed))
             M = cfg.mem
-            add('C05', 'after a store the cached values fit in max_memory', simp(total(ids) <= M))
+            stored_total = 0
+            for st_ in store: stored_total = stored_total + h.SIZE(st_['val'])
+            add('C05', 'after a store the cached values fit in max_memory', simp(stored_total <= M))
             # oversized value: not cached, displaces nothing else
             add('C05', 'a value larger than max_memory is not cached and displaces nothing else',
                 z3.Implies(size_new > M, b_and(newid not in ids, [x for x in L if x != newid] == [x for x in ids if x != newid] or sorted(map(str, [x for x in L if x != newid])) == sorted(map(str, [x for x in ids if x != newid])))))
@@ -331,7 +389,7 @@ def oracle_insert(ctx, h, k, v, claims, pre_clock, with_memory=False):
                     x = 1 - z3.If(el / T < 1, el / T, 1)
                     return z3.If(x > 0, x, 0)
                 ordered = [dict(id=i, hits=hitsof[i], frac=frac(i)) for i in cands]
-                sc = dict(zip(cands, score_terms(cfg, ordered)))
+                sc = dict(zip(cands, score_terms(cfg, ordered, ctx=ctx)))
                 surv = [x for x in cands if x not in removed]
                 for rmd in removed:
                     if rmd not in sc: continue
